@@ -77,9 +77,10 @@ def iterator(
                     break
                 except Exception as exc:
                     cond_res = condition(exc, args, kwargs, key=_cache_key)
-                    if _to_cache and cond_res and isinstance(cond_res, Exception):
+                    executing_time = time.monotonic() - start
+                    if _to_cache and cond_res and isinstance(cond_res, Exception) and _ttl > executing_time:
                         await backend.set(_cache_key + f":{chunk_number}", RaiseException(exc), expire=_ttl)
-                        await backend.set(_cache_key, chunk_number + 1, expire=_ttl - time.monotonic() + start)
+                        await backend.set(_cache_key, chunk_number + 1, expire=_ttl - executing_time)
                     raise exc
                 yield chunk
                 if _to_cache and condition(chunk, args, kwargs, key=_cache_key):
